@@ -194,6 +194,32 @@ func dropEmptyOptions(m protoreflect.Message) {
 	})
 }
 
+// sameModuloOptions reports whether two descriptors differ in options / source info only.
+func sameModuloOptions(a, b proto.Message) bool {
+	x, y := proto.Clone(a), proto.Clone(b)
+	var clear func(m protoreflect.Message)
+	clear = func(m protoreflect.Message) {
+		m.Range(func(fd protoreflect.FieldDescriptor, v protoreflect.Value) bool {
+			switch {
+			case fd.Name() == "options" || fd.Name() == "source_code_info":
+				m.Clear(fd)
+			case fd.IsMap():
+			case fd.IsList() && fd.Message() != nil:
+				l := v.List()
+				for i := 0; i < l.Len(); i++ {
+					clear(l.Get(i).Message())
+				}
+			case fd.Message() != nil:
+				clear(v.Message())
+			}
+			return true
+		})
+	}
+	clear(x.ProtoReflect())
+	clear(y.ProtoReflect())
+	return proto.Equal(x, y)
+}
+
 // ---------------------------------------------------------------------------------------------
 // the oracle
 
@@ -295,6 +321,9 @@ func checkRequests(res *refResolver, exp expectation, reqs []*pluginpb.CodeGener
 			if err != nil {
 				return "source-retention:undecodable", fmt.Sprintf("%s: source_file_descriptors %s: %v", at, name, err), stats
 			}
+			if !proto.Equal(wn, gn) && !sameModuloOptions(wn, gn) {
+				return "request-descriptor-not-the-images", fmt.Sprintf("%s: source_file_descriptors entry %s is not the descriptor of that file in the image the requests are built from: %s", at, name, firstDiff(wn.ProtoReflect(), gn.ProtoReflect(), name)), stats
+			}
 			if !proto.Equal(wn, gn) {
 				return "source-retention:source-view-altered", fmt.Sprintf("%s: source_file_descriptors entry %s differs from the image's descriptor (must keep all options): %s", at, name, firstDiff(wn.ProtoReflect(), gn.ProtoReflect(), name)), stats
 			}
@@ -309,6 +338,9 @@ func checkRequests(res *refResolver, exp expectation, reqs []*pluginpb.CodeGener
 			gn, err := res.norm(pf)
 			if err != nil {
 				return "source-retention:undecodable", fmt.Sprintf("%s: proto_file %s: %v", at, name, err), stats
+			}
+			if !sameModuloOptions(wn, gn) {
+				return "request-descriptor-not-the-images", fmt.Sprintf("%s: proto_file entry %s is not the descriptor of that file in the image the requests are built from: %s", at, name, firstDiff(wn.ProtoReflect(), gn.ProtoReflect(), name)), stats
 			}
 			if !isGen[name] {
 				if !proto.Equal(wn, gn) {
